@@ -63,7 +63,10 @@ PLANS["C02"] = Plan(
     bounded=[bounded.objectives_oracle.harness],
     explanation="proved: the four count/area kernels equal their spec functions (maxbin, count_in, area_in; minimum over bins "
                 "as attained lower bound) for arbitrary row order and sparse bins, no overflow, scratch write-before-read; "
-                "the two skyline kernels: memory safety, no overflow, termination, value within [(bins-1)*A, bins*A]; "
+                "the two skyline kernels: memory safety, no overflow, termination, and the value is (bins-1)*A plus the area "
+                "under the skyline of the last bin, resp. the minimum of that area over all bins - the skyline is the "
+                "recursive spec skyh (height of the tallest item covering a column), its area the column sum skyarea; the "
+                "sweep is justified segment by segment (lemmas seg_le, seg_ge, sky_nonneg, seg_sum by induction); "
                 "lower_bound() / upper_bound() / to_bin_count() of the three base classes (the other four inherit them) are "
                 "the documented functions of the instance attributes (smallest item area as a recursive minimum), and every "
                 "value scale*(k-1)+tie of the count and area objectives lies between them, converts back to k, and is "
@@ -72,8 +75,10 @@ PLANS["C02"] = Plan(
                 "bounded: all seven objective classes vs an independent recomputation incl. area under the skyline, "
                 "declared bounds, to_bin_count and dominance (not counted as proved)",
     assumptions=["a packing has fewer than 2**31 rows (n*n and n*bin_area fit in int64)",
-                 "skyline value = integral of the skyline (and hence the lower-bound clause of the two skyline objectives, which "
-                 "needs skyline area >= covered area): bounded oracle only", "bounds clause rests on C03 (lower_bound_bins <= bins)"],
+                 "the lower-bound clause of the two skyline objectives needs 'area under the skyline >= covered area' (A1', "
+                 "lean/A1b.lean, Lean-checked in the design round) and, like the other bound clauses, the facts a feasible "
+                 "packing provides (every bin 1..k holds an item, items are the instance's items, k <= n_items): hypotheses "
+                 "of the lemmas, established by C01 / C04, not re-derived here", "bounds clause rests on C03 (lower_bound_bins <= bins)"],
 )
 
 ER = "moptipyapps.ttp.errors"
@@ -386,7 +391,8 @@ PLANS["C01"].functions += _WRAP_ENC + ["moptipyapps.binpacking2d.instance:Instan
 PLANS["C13"].functions += ["moptipyapps.binpacking2d.instance:Instance.__new__#dtype"]
 PLANS["C02"].functions += _WRAP_OBJ + [OB + "bin_count_and_last_small:BinCountAndLastSmall.to_bin_count",
                                        OB + "bin_count_and_last_empty:BinCountAndLastEmpty.to_bin_count"]
-PLANS["C02"].lemmas += ["dominance", "bounds_item_count", "bounds_area", "bounds_bin_count"]
+PLANS["C02"].lemmas += ["dominance", "bounds_item_count", "bounds_area", "bounds_bin_count", "sky_nonneg", "seg_le", "seg_ge",
+                        "seg_sum"]
 PLANS["C02"].functions += [OB + "bin_count:BinCount.lower_bound", OB + "bin_count:BinCount.upper_bound",
                            OB + "bin_count:BinCount.to_bin_count",
                            OB + "bin_count_and_last_empty:BinCountAndLastEmpty.lower_bound",
@@ -528,13 +534,17 @@ META = {
             "note": "level 'other': proof for the clauses a contract can carry + exhaustive bounded enumeration for the "
                     "combinatorial clauses; integer counter treated as mathematical",
             "technique": "contract-based deductive verification + exhaustive bounded enumeration (12^6 plans) vs executable spec"},
-    "C02": {"text": "four of the six njit objective kernels proved equal to recursive spec functions (bins, item count, covered "
-                    "area; least filled bin as attained minimum) for arbitrary row order; skyline kernels proved safe, "
-                    "overflow-free, terminating and within range; the documented skyline value, the declared bounds, "
-                    "to_bin_count and dominance are checked by a bounded oracle over generated feasible packings",
-            "note": "level 'other': mixed proof + bounded; bounded part is labelled and never counted in 'discharged'",
+    "C02": {"text": "all six njit objective kernels proved equal to recursive spec functions for arbitrary row order (bins, item "
+                    "count, covered area, least filled bin as attained minimum, area under the skyline of the last / lowest "
+                    "bin via segment lemmas); declared bounds, to_bin_count and strict dominance proved as one-sided method "
+                    "contracts plus lemmas over the value forms; the hypotheses those lemmas take from feasibility (every bin "
+                    "used, item areas, bins <= items) and from C03 are listed; all seven classes additionally compared with an "
+                    "independent recomputation on generated feasible packings (bounded)",
+            "note": "level 'other': every clause has a deductive argument, but the bound clauses rest on hypotheses established "
+                    "by other properties' contracts (C01/C04 feasibility, C03 bin lower bound with assumption A2) rather than "
+                    "re-derived; the bounded oracle is labelled and never counted in 'discharged'",
             "technique": "contract-based deductive verification (recursive spec functions, quantified definitional axioms, "
-                         "inductive lemmas) + bounded run-time oracle"},
+                         "inductive segment lemmas, ghost witnesses) + bounded run-time oracle"},
     "C01": {"text": "all six decoder functions proved against contracts for every instance/permutation/dtype: inside-bin, "
                     "pairwise non-overlap per bin, id/size/rotation, gap-free bins (ghost witnesses), bin count, every store "
                     "within the storage type; bounded run of the public decode() as replay vehicle",
